@@ -297,7 +297,7 @@ def minimise(lane, scn, decisions, want_cls, max_execs=700, max_wall=75.0, rescu
                 n *= 2
 
     # 1. ops, 2. faults, 3. replies/corruptions, 4. timing draws, 5. schedule decisions
-    for key in ("ops", "faults", "job", "arrivals", "reports"):
+    for key in ("ops", "faults", "job", "job2", "arrivals", "reports"):
         if isinstance(scn.get(key), list):
             shrink_list(lambda s, d, key=key: s[key],
                         lambda s, d, c, key=key: (dict(s, **{key: c}), d), search=True)
@@ -414,6 +414,16 @@ def do_check(lane, seed, tier, a):
         n = 6 if tier == "quick" else 48
         st["problems"], st_ref = selftest_determinism(lane, seed, tier, n)
         st["runs_checked"] = n * len(lane.subs(tier)) * 3
+        if tier == "thorough":
+            # a further leg at another worker count (3 instead of 16)
+            for sub, _ in lane.subs(tier):
+                agg3, errs3 = run_batch(lane, seed, tier, sub, n, 3, 900)
+                errors.extend(errs3)
+                for i, d in enumerate(st_ref.get(sub, [])):
+                    if agg3["first_digests"].get(i) != d:
+                        st["problems"].append("run %d of sub-lane %s differs in a 3-worker batch" % (i, sub))
+                        break
+            st["runs_checked"] += n * len(lane.subs(tier))
         for p in st["problems"]:
             errors.append("non-deterministic: " + p)
     # 1. pinned replays of recorded findings
